@@ -152,3 +152,35 @@ def fits(mant, ex, lat):
     g = z3.And(ex == 0, z3.Or(*[mant == c for c in lat.values]))
     return g, []
   raise Unsupported("fits in %s" % lat.kind)
+
+
+# ------------------------------------------------- value ranges (sums)
+def value_range(lat):
+  """(lo, hi, res): every value of lat lies in [lo, hi] (reals, both attained)
+  and is an integer multiple of 2^res (res attained by some odd multiple)."""
+  if lat.kind == "fixed":
+    i = lat.n - lat.f
+    return (-z3.ToReal(lat.s) * I.POW2(i), I.POW2(i) - I.POW2(-lat.f), -lat.f)
+  if lat.kind == "po2":
+    hi = I.POW2(lat.emax)
+    lo = z3.If(lat.signed, -hi, I.POW2(lat.emin))
+    return (lo, hi, lat.emin)
+  if lat.kind == "finite":
+    return (z3.RealVal(min(lat.values)), z3.RealVal(max(lat.values)), z3.IntVal(0))
+  raise Unsupported("value_range of %s" % lat.kind)
+
+
+def range_fits(vlo, vhi, res, lat):
+  """Every real in [vlo, vhi] that is a multiple of 2^res is a member of lat
+  (sufficient; necessary when the interval ends and an odd multiple occur).
+  Returns (resolution_goal, range_goal, hints)."""
+  if lat.kind == "float":
+    return z3.BoolVal(True), z3.BoolVal(True), []
+  if lat.kind == "fixed":
+    i = lat.n - lat.f
+    res_ok = res + lat.f >= 0
+    # membership = on the grid (res_ok) and -s*2^i <= v < 2^i ; the strict upper bound together
+    # with the grid gives v <= 2^i - 2^-f
+    rng = z3.And(-z3.ToReal(lat.s) * I.POW2(i) <= vlo, vhi < I.POW2(i))
+    return res_ok, rng, [i, -lat.f, lat.n]
+  raise Unsupported("range_fits into %s" % lat.kind)
